@@ -84,6 +84,9 @@ def probes():
                 ok.append(False)
             except ValueError:
                 ok.append(True)
+            m0 = mmap.mmap(f.fileno(), 0, access=mmap.ACCESS_READ)  # length 0: the whole file
+            ok.append(len(m0) == 20)
+            m0.close()
             m = mmap.mmap(f.fileno(), 20, flags=mmap.MAP_SHARED, prot=mmap.PROT_READ)
             try:
                 np.ndarray(shape=(6,), buffer=m, dtype=np.uint32, offset=0)
@@ -98,6 +101,21 @@ def probes():
 
 
 # ------------------------------------------------------------------ generation
+def _load_restructured():
+    """Is the statement skeleton of IndxIO.load different from the recorded one (same notion as for the kernels)?"""
+    import ast as _ast
+    import json as _json
+
+    from . import kernels_check
+
+    try:
+        rec = _json.load(open(kernels_check.SKELETONS)).get("IndxIO.load")
+        fn = pyexec.get_function(_ast.parse(env.read_source("indxio.py")), "IndxIO.load")
+        return rec is not None and kernels_check.skeleton(fn) != rec
+    except Exception:  # noqa
+        return True
+
+
 def generate():
     src = env.read_source("indxio.py")
     tree = ast.parse(src)
@@ -115,21 +133,27 @@ def generate():
         out["saves"] = saves
     except (X.Unsupported, pyexec.Unsupported, KeyError, AttributeError, IndexError) as e:
         out["stale"].append(("IndxIO.save", "%s: %s" % (type(e).__name__, e)))
+    fnl = None
     try:
         fnl = pyexec.get_function(tree, "IndxIO.load")
         out["meta"]["indxio.IndxIO.load"] = {"source_sha256": env.sha(ast.get_source_segment(src, fnl))}
         syml = X.Sym()
         exl = X.run_load(fnl, syml, torn=False)
         out["obls"] += [_tag(o, "load") for o in exl.obls]
-        symt = X.Sym()
-        ext = X.run_load(fnl, symt, torn=True)
-        for o in ext.obls:
-            o.name = o.name.replace("IndxIO.load/", "IndxIO.load[prefix]/")
-        out["obls"] += [_tag(o, "torn") for o in ext.obls]
         out["load_outcomes"] = [k for k, _ in exl.outcomes]
-        out["torn_outcomes"] = [k for k, _ in ext.outcomes]
     except (X.Unsupported, pyexec.Unsupported, KeyError, AttributeError, IndexError) as e:
         out["stale"].append(("IndxIO.load", "%s: %s" % (type(e).__name__, e)))
+    # the prefix run stops where the file is mapped: it is generated on its own, whatever follows the mapping
+    try:
+        if fnl is not None:
+            symt = X.Sym()
+            ext = X.run_load(fnl, symt, torn=True)
+            for o in ext.obls:
+                o.name = o.name.replace("IndxIO.load/", "IndxIO.load[prefix]/")
+            out["obls"] += [_tag(o, "torn") for o in ext.obls]
+            out["torn_outcomes"] = [k for k, _ in ext.outcomes]
+    except (X.Unsupported, pyexec.Unsupported, KeyError, AttributeError, IndexError) as e:
+        out["stale"].append(("IndxIO.load[prefix]", "%s: %s" % (type(e).__name__, e)))
     # ---- composition lemma (C10): save's postcondition implies load's precondition
     if "saves" in out and not any(s[0] == "IndxIO.load" for s in out["stale"]):
         for nzero, exs in out["saves"].items():
@@ -367,6 +391,15 @@ def run(ctx, which):
                                          % (hit.verdict, what, ", ".join(others[:8])), input=inp, cls=dict(inp or {}, group=grp)))
             continue
         r = rs[0]
+        if grp == "torn" and all(x.name.endswith("torn-nothing-continues-past-mmap") for x in rs) and _load_restructured():
+            # This obligation is conservative by construction (the prefix run stops where the file is mapped and asks that no
+            # path gets there).  On a restructured load (statement skeleton differs from contracts/kernel_skeletons.json) that
+            # still rejects every prefix by a check AFTER the mapping it is open without the property being violated; no
+            # prefix of the probe files loads.  Reported as proof_stale; the bounded run (every cut of every file) decides.
+            stale_torn = "IndxIO.load[prefix]: load was restructured and %s is open; no prefix of the probe files loads" % r.name.split("/")[-1]
+            ctx.notes.append("proof_stale: " + stale_torn)
+            gen["stale"].append(("IndxIO.load[prefix]", stale_torn))
+            continue
         ctx.violation(core.Violation(
             which, r.name, "obligation generated from the current source is not discharged (%s by %s); no failing input found by ground "
             "instantiation (n <= 3) or the probe inputs; open obligations: %s" % (r.verdict, r.backend, ", ".join(others[:8])), input=None, cls={"group": grp},
